@@ -137,27 +137,41 @@ Proof.
 Qed.
 
 (* a defined day of a strategy at a neutral setting is the rainfed day (method 0), whatever the rainfed configuration's
-   other irrigation parameters *)
+   other irrigation parameters; outside the season every configuration is the rainfed one *)
 Theorem irrigation_neutral m smt eff maxirr interval sched depth ms smt' eff' maxirr' interval' sched' depth' ms'
         stage cum epot tpot zroot th dap tsc zmin aer p ztop gs rain runoff r :
   irrigation (F:=R) m smt eff maxirr interval sched depth ms stage cum epot tpot zroot th dap tsc zmin aer p ztop gs rain runoff = Some r ->
-  (m = 5%Z /\ depth = 0) \/ maxirr = 0 \/ (m = 3%Z /\ py_index sched tsc = Some 0) \/ (ms = 0 /\ 0 <= cum) ->
+  gs = false \/ (m = 5%Z /\ depth = 0) \/ maxirr = 0 \/ (m = 3%Z /\ py_index sched tsc = Some 0) \/ (ms = 0 /\ 0 <= cum) ->
   irrigation 0 smt' eff' maxirr' interval' sched' depth' ms' stage cum epot tpot zroot th dap tsc zmin aer p ztop gs rain runoff = Some r
-  /\ snd r = 0.
+  /\ snd r = 0 /\ (0 <= cum -> 0 <= snd (fst r)).
 Proof.
   unfold irrigation. destruct gs.
-  2:{ rewrite !irr_season_0. intros [= <-] _. split; reflexivity. }
+  2:{ rewrite !irr_season_0. intros [= <-] _. cbn [fst snd]. repeat split; try reflexivity. intros _. rnum. lra. }
   destruct (irr_depletion _ _ _ _ _ _ _ _ _ _) as [[depl taw]|]; [|discriminate].
   cbn [irr_method Z.eqb]. rewrite pmax00, irr_season_0. cbn [fst snd].
   destruct (irr_method m _ _ _ _ _ _ _ _ _ _ _) as [v|] eqn:Em; [|discriminate].
-  intros H Hc.
+  intros H Hc. destruct Hc as [Hc|Hc]; [discriminate|].
   assert (E : irr_season ms cum (pmax (F:=R) (#0)%num v) = (cum, (#0)%num)).
   { destruct Hc as [Hc | [Hc | [Hc | (-> & Hcum)]]].
     - rewrite (irr_method_neutral' _ _ _ _ _ _ _ _ _ _ _ _ _ Em) by tauto. apply irr_season_0.
     - rewrite (irr_method_neutral' _ _ _ _ _ _ _ _ _ _ _ _ _ Em) by tauto. apply irr_season_0.
     - rewrite (irr_method_neutral' _ _ _ _ _ _ _ _ _ _ _ _ _ Em) by tauto. apply irr_season_0.
     - apply irr_season_max0'; [reflexivity | exact Hcum | apply pmax0_nonneg]. }
-  rewrite E in H. cbn [fst snd] in H. injection H as <-. split; reflexivity.
+  rewrite E in H. cbn [fst snd] in H. injection H as <-. cbn [fst snd]. repeat split; try reflexivity. intros H; exact H.
+Qed.
+
+(* the seasonal counter never becomes negative *)
+Lemma irrigation_cum_nonneg m smt eff maxirr interval sched depth ms stage cum epot tpot zroot th dap tsc zmin aer p ztop gs rain runoff r :
+  irrigation (F:=R) m smt eff maxirr interval sched depth ms stage cum epot tpot zroot th dap tsc zmin aer p ztop gs rain runoff = Some r ->
+  0 <= cum -> 0 <= snd (fst r).
+Proof.
+  unfold irrigation. destruct gs.
+  2:{ rewrite irr_season_0. intros [= <-] _. cbn [fst snd]. rnum. lra. }
+  destruct (irr_depletion _ _ _ _ _ _ _ _ _ _) as [[depl taw]|]; [|discriminate].
+  destruct (irr_method m _ _ _ _ _ _ _ _ _ _ _) as [v|]; [|discriminate].
+  intros [= <-] Hc. cbn [fst snd]. unfold irr_season. cbv zeta. cbn [fst].
+  pose proof (pmax0_nonneg v). pose proof (pmax0_nonneg (ms - cum)%num).
+  match goal with |- context [if ?b then _ else _] => destruct b end; rnum; lra.
 Qed.
 
 (* ---- infiltration: application efficiency and bund height ----------------------------------------------------- *)
